@@ -295,7 +295,18 @@ func genVLACase(t *rapid.T) *VLACase {
 	}
 	if rapid.IntRange(0, 7).Draw(t, "invalid") == 0 {
 		c.Prev = nil
-		c.Invalid = rapid.SampledFrom([]string{"count0", "count-1", "count5", "rid-neg", "rid-high", "layer-stream-high", "layer-stream-neg", "spatial4", "spatial-neg", "duplicate", "tl0", "tl5"}).Draw(t, "defect")
+		c.Invalid = rapid.SampledFrom([]string{"count0", "count-1", "count5", "rid-neg", "rid-high", "layer-stream-high", "layer-stream-neg", "spatial4", "spatial-neg", "duplicate", "tl0", "tl5",
+			"count-wide", "rid-wide", "layer-stream-wide", "spatial-wide", "tl-wide"}).Draw(t, "defect")
+		// wide out-of-range values, in particular ones congruent to valid values modulo 2^8 / 2^16 / 2^32
+		wide := func(valid int) int {
+			m := rapid.SampledFrom([]int{256, 65536, 1 << 32, -256, -65536}).Draw(t, "widemod")
+			k := rapid.IntRange(1, 3).Draw(t, "widek")
+			if rapid.IntRange(0, 3).Draw(t, "widerandom") == 0 {
+				return rapid.IntRange(5, 1<<20).Draw(t, "widerand")
+			}
+
+			return valid + m*k
+		}
 		i := rapid.IntRange(0, len(c.Layers)-1).Draw(t, "defectlayer")
 		switch c.Invalid {
 		case "count0":
@@ -322,6 +333,16 @@ func genVLACase(t *rapid.T) *VLACase {
 			c.Layers[i].Bitrates = nil
 		case "tl5":
 			c.Layers[i].Bitrates = []uint64{1, 2, 3, 4, 5}
+		case "count-wide":
+			c.Streams = wide(c.Streams)
+		case "rid-wide":
+			c.RID = wide(c.RID)
+		case "layer-stream-wide":
+			c.Layers[i].Stream = wide(c.Layers[i].Stream)
+		case "spatial-wide":
+			c.Layers[i].Spatial = wide(c.Layers[i].Spatial)
+		case "tl-wide":
+			c.Layers[i].Bitrates = make([]uint64, len(c.Layers[i].Bitrates)+256*rapid.IntRange(1, 2).Draw(t, "tlwide"))
 		}
 	}
 
@@ -411,7 +432,7 @@ func enumVLAMasks(r *run) bool {
 	return true
 }
 
-const ruleC19 = "valid VLAs: rapid draws 1-4 streams, RID, a slot assignment (equal masks / inactive streams / arbitrary), 1-4 temporal layers with bitrates across all LEB128 size classes up to 2^32-1, optional resolution (1-65536)^2 and frame rate; every 16^n-1 slot assignment (69904 allocations) is also enumerated in both tiers, partitioned across the shards. Oracle: Marshal equals an independent encoder of the video-layers-allocation00 layout byte for byte, Unmarshal consumes everything and yields an equal VLA, also into a receiver that decoded another allocation before; VLAs with exactly one injected defect must be rejected; hostile byte strings (random, mutated valid encodings, with earlier decode) must not panic and must report 0<=n<=len, and accepted ones must agree with the reference decoder. Non-trivial = differing masks, an inactive stream, >4 layers or a bitrate >=128 (valid), every invalid/hostile case; distinct = FNV-64 of the JSON case"
+const ruleC19 = "valid VLAs: rapid draws 1-4 streams, RID, a slot assignment (equal masks / inactive streams / arbitrary), 1-4 temporal layers with bitrates across all LEB128 size classes up to 2^32-1, optional resolution (1-65536)^2 and frame rate; every 16^n-1 slot assignment (69904 allocations) is also enumerated in both tiers, partitioned across the shards. Oracle: Marshal equals an independent encoder of the video-layers-allocation00 layout byte for byte, Unmarshal consumes everything and yields an equal VLA, also into a receiver that decoded another allocation before; VLAs with exactly one injected defect (boundary values, and wide out-of-range values incl. ones congruent to valid values modulo 2^8/2^16/2^32) must be rejected without panicking; hostile byte strings (random, mutated valid encodings, with earlier decode) must not panic and must report 0<=n<=len, and accepted ones must agree with the reference decoder. Non-trivial = differing masks, an inactive stream, >4 layers or a bitrate >=128 (valid), every invalid/hostile case; distinct = FNV-64 of the JSON case"
 
 func TestC19(t *testing.T) {
 	r := begin(t, "C19", "exploration", ruleC19)
